@@ -20,12 +20,18 @@
 (*     CleanInPool   every pooled node is clean                            *)
 (*     SnapshotStable  a step changes the content of no held tree except   *)
 (*                   the one it releases (action property)                 *)
+(* Use(s, u): the caller hands what it holds back to the library - its    *)
+(* token slice (whole, or a window of it that does not end in the end      *)
+(* marker) to the token-level parse entry points, its tree to the scanner, *)
+(* the serialisers, the extractors and the walker.  These read; Shape =    *)
+(* "writes-through" is a library that completes a token window in place.   *)
 (* Shape = "pinned": Put leaves the listed fields untouched (the pinned    *)
 (* commit), Shape = "ideal": Put clears every field.                       *)
 (***************************************************************************)
 EXTENDS Integers, Sequences, FiniteSets, TLC, Json, PoolSchema
 
-CONSTANTS Shape, Emit, Slots, MaxSteps, Machine    \* Machine = "cycle" | "history"
+CONSTANTS Shape, Emit, Slots, MaxSteps, Machine,   \* Machine = "cycle" | "history"
+          UseKinds                                  \* the ways a held value is handed back to the library (history machine)
 
 \* fields the pinned commit does not clear (transcribed from reading pool.go; only used to show that TLC sees it)
 PinnedDirty == [ty \in PooledTypes |->
@@ -131,7 +137,18 @@ ParseCancel(k) ==
     /\ UNCHANGED <<ty, fld, size, node, held, version>>
     /\ Log([op |-> "parsecancel", kind |-> k])
 
+\* the caller hands a held value back to the library, which only reads it; at most one such step per history
+\* (it does not change the abstract state, so longer combinations add nothing the single steps do not show)
+AllUses == {"parse-tokens", "parse-window", "recover-window", "context-window", "scan", "serialise", "format", "extract", "walk"}
+ASSUME UseKinds \subseteq AllUses
+Use(s, u) ==
+    /\ steps < MaxSteps /\ held[s] # {} /\ \A i \in DOMAIN hist : hist[i].op # "use"
+    /\ version' = [version EXCEPT ![s] = IF Shape = "writes-through" /\ u \in {"parse-window", "recover-window", "context-window"} THEN @ + 1 ELSE @]
+    /\ UNCHANGED <<ty, fld, size, node, owner, dirtyOf, held, nextId, dup>>
+    /\ Log([op |-> "use", slot |-> s, kind |-> u])
+
 HNext == \/ \E s \in Slots, k \in Kinds, r \in SUBSET Drawable : ParseInto(s, k, r)
+         \/ \E s \in Slots, u \in UseKinds : Use(s, u)
          \/ \E s \in Slots : Release(s)
          \/ \E n \in Ids : ClientGet(n)
          \/ \E k \in Kinds : ParseFail(k)
